@@ -679,6 +679,11 @@ class Buildable(Generic[T], metaclass=abc.ABCMeta):
     memo[id(self.__signature_info__.signature)] = (
         self.__signature_info__.signature
     )
+    # The copy configures the very same callable. Functions and classes are
+    # atomic for `copy.deepcopy` anyway; a callable that is an object (a bound
+    # method, a `functools.partial` object, an instance with `__call__`) would
+    # otherwise be cloned.
+    memo[id(self.__fn_or_cls__)] = self.__fn_or_cls__
     result = object.__new__(type(self))
     result.__dict__.update(copy.deepcopy(self.__dict__, memo))
     return result
